@@ -443,6 +443,131 @@ def check_tie_order(ctx, F):
         ctx.violate("det.tie-order", "floor|consumers", f"only {n_cons} consumers of the tie-ordered field(s) found, 6 were confirmed by reading (anchor disappeared)")
 
 
+def check_write_witness(ctx, F):
+    """fs.write-witness: the write-if-different helpers interpreted on a small abstract file system: whatever the target file held
+    before (missing, equal, different, a prefix of the new text, the new text followed by a stale tail, empty), it holds exactly the
+    new text afterwards — the per-file step of "a run started from a stale tree converges"."""
+    from ..minieval import Mini, Panic, Unsupported
+    FB = {"wow_message_parser": F}
+    FU = "crate::file_utils::"
+    n = 0
+
+    class Handle:
+        def __init__(self, fs, path, r, w, pos=0, limit=None):
+            self.fs, self.path, self.r, self.w, self.pos, self.limit = fs, path, r, w, pos, limit
+
+    def run_one(fn_name, before, text):
+        fs = {}
+        if before is not None:
+            fs["out/f.rs"] = list(before)
+        stats = {"writes": 0}
+
+        def opt_new(a):
+            return ("struct", "OpenOptions", {"read": False, "write": False, "truncate": False, "create": False, "append": False, "create_new": False})
+
+        def opt_set(k):
+            def f(a):
+                a[0][2][k] = a[1]
+                return a[0]
+            return f
+
+        def opt_open(a):
+            o, path = a[0][2], a[1]
+            exists = path in fs
+            if o["create_new"] and exists:
+                return ("Err", "AlreadyExists")
+            if not exists:
+                if (o["create"] or o["create_new"]) and (o["write"] or o["append"]):
+                    fs[path] = []
+                else:
+                    return ("Err", "NotFound")
+            if o["truncate"] and o["write"]:
+                fs[path] = []
+            return ("Ok", Handle(fs, path, o["read"], o["write"] or o["append"], pos=len(fs[path]) if o["append"] else 0))
+
+        def file_create(a):
+            fs[a[0]] = []
+            return ("Ok", Handle(fs, a[0], False, True))
+
+        def file_open(a):
+            return ("Ok", Handle(fs, a[0], True, False)) if a[0] in fs else ("Err", "NotFound")
+
+        def read_all(a):
+            h, buf = a[0], a[1]
+            if not isinstance(h, Handle) or not h.r or not isinstance(buf, list):
+                return ("Err", "NotReadable")
+            data = fs[h.path]
+            end = len(data) if h.limit is None else min(len(data), h.limit)
+            got = data[h.pos:end]
+            buf.extend(got)
+            h.pos = end
+            return ("Ok", len(got))
+
+        def take(a):
+            h = a[0]
+            return Handle(h.fs, h.path, h.r, h.w, h.pos, h.pos + a[1])
+
+        def write_all(a):
+            h, data = a[0], a[1]
+            if not isinstance(h, Handle) or not h.w:
+                return ("Err", "NotWritable")
+            cur = fs[h.path]
+            cur[h.pos:h.pos + len(data)] = list(data)
+            h.pos += len(data)
+            stats["writes"] += 1
+            return ("Ok", ())
+
+        def fs_read_to_string(a):
+            return ("Ok", list(fs[a[0]])) if a[0] in fs else ("Err", "NotFound")
+
+        def fs_write(a):
+            fs[a[0]] = list(a[1])
+            stats["writes"] += 1
+            return ("Ok", ())
+
+        m = Mini(FB, "wow_message_parser")
+        m.overrides = {
+            "std::fs::OpenOptions::new": opt_new, "std::fs::File::options": opt_new,
+            "std::fs::OpenOptions::read": opt_set("read"), "std::fs::OpenOptions::write": opt_set("write"), "std::fs::OpenOptions::truncate": opt_set("truncate"),
+            "std::fs::OpenOptions::create": opt_set("create"), "std::fs::OpenOptions::append": opt_set("append"), "std::fs::OpenOptions::create_new": opt_set("create_new"),
+            "std::fs::OpenOptions::open": opt_open, "std::fs::File::create": file_create, "std::fs::File::open": file_open,
+            "std::fs::create_dir_all": lambda a: ("Ok", ()), "std::path::Path::parent": lambda a: ("Some", "out"),
+            "std::fs::read_to_string": fs_read_to_string, "std::fs::write": fs_write,
+            "std::io::Read::read_to_string": read_all, "std::io::Read::read_to_end": read_all, "std::io::Read::take": take,
+            "std::io::Write::write_all": write_all, "std::io::Write::flush": lambda a: ("Ok", ()),
+            "std::string::String::with_capacity": lambda a: [], "std::string::String::new": lambda a: [], "std::vec::Vec::<T>::with_capacity": lambda a: [],
+            "::as_bytes": lambda a: a[0], "std::string::String::as_str": lambda a: a[0], "std::path::Path::display": lambda a: "path", "std::path::Path::to_str": lambda a: ("Some", "path"),
+            "std::io::_eprint": lambda a: (), "std::io::_print": lambda a: (), "std::path::Path::exists": lambda a: a[0] in fs, "std::path::Path::is_file": lambda a: a[0] in fs,
+        }
+        m.call_fn(FU + fn_name, [list(text), "out/f.rs"])
+        return fs.get("out/f.rs"), stats["writes"]
+
+    texts = [b"abc\n", b"abcdef\n", b""]
+    for fn_name in ("write_string_to_file", "overwrite_if_not_same_contents", "create_and_overwrite_if_not_same_contents"):
+        fn = F.fn(FU + fn_name)
+        if fn is None:
+            ctx.violate("fs.write-witness", f"anchor|{fn_name}", f"file_utils::{fn_name} not found (anchor disappeared)")
+            continue
+        done = False
+        for text in texts:
+            befores = [("missing", None), ("equal", text), ("empty", b""), ("different", b"zzzzzzzzzzzzzzzzzz"), ("new text + stale tail", text + b"// stale tail\n"),
+                       ("a prefix of the new text", text[:-2] if len(text) > 2 else b""), ("same length, last byte differs", (text[:-1] + b"X") if text else b"")]
+            for desc, before in befores:
+                n += 1
+                try:
+                    after, writes = run_one(fn_name, before, text)
+                except (Unsupported, Panic) as e:
+                    ctx.violate("fs.write-witness", f"{fn_name}|shape", f"file_utils::{fn_name}: not interpretable — review ({type(e).__name__}: {e})", fn["file"], fn["line"])
+                    done = True
+                    break
+                if after is None or bytes(after) != text:
+                    ctx.violate("fs.write-witness", f"{fn_name}|{desc}", f"file_utils::{fn_name}: target file held {desc} ({before!r}), the text to generate is {text!r}; afterwards the file holds "
+                                f"{bytes(after) if after is not None else None!r}: the stale file is not replaced by the generated text, a rerun does not converge", fn["file"], fn["line"])
+            if done:
+                break
+    ctx.rule("fs.write-witness", n, floor=60, note="write_string_to_file / overwrite_if_not_same_contents / create_and_overwrite_if_not_same_contents interpreted on an abstract file system: 7 prior states x 3 texts each; the target must hold exactly the new text afterwards")
+
+
 def check_sweep_witness(ctx, F):
     """ModFiles bookkeeping interpreted on small states: the sweep removes exactly the files that existed before the run and were not
     written by it, whatever else happened during the run; write_file marks its path as written; the sweep runs at the end of
@@ -537,6 +662,7 @@ def run(ctx):
     check_write_funnel(ctx, F)
     check_clean_cover(ctx, F)
     check_sweep_witness(ctx, F)
+    check_write_witness(ctx, F)
     check_tie_order(ctx, F)
     ctx.assume("byte-for-byte reproduction of the ~3,900 committed artefacts and convergence from damaged trees require running the generator (which, in this snapshot, aborts in its documentation printer on the unmodified tree) and are not decided")
     ctx.assume("the item/spell data printer (base_printer) is outside the artefact list of the property; its tie-breaking by hash order in Optimizations::new is noted in DESIGN.md, not reported")
